@@ -38,7 +38,7 @@ Record cparams := {
   p_lazy : bool;         (* lazy=1: from_iter / join_all get an iterator whose size_hint is (0, Some n) *)
   p_seed : option Z;    (* seed= *)
   p_hlo : nat;          (* hint slack *)
-  p_hhi : option nat;
+  p_hhi : option N;     (* slack of the upstream's upper bound; N: values near 2^64 are of interest *)
 }.
 
 Inductive ipoint := IReg | IMid | IExit.
@@ -86,7 +86,7 @@ Definition addr := (nat * nat)%type.
 
 Record obsrec := {
   ob_len : option nat; ob_empty : option bool; ob_cap : option nat;
-  ob_hint : option (nat * option nat); ob_term : option bool;
+  ob_hint : option (N * option N); ob_term : option bool;
 }.
 
 Inductive event :=
